@@ -98,8 +98,8 @@ def enum_values(prog, en):
     raise AnalysisBroken('enum %s not found' % en)
 
 
-def r3_cipher_tables(ctx, po, pb):
-    r = ctx.rule('C13.R3', 'the cipher selected for a (mode, key size) pair is the cipher of that mode and size', floor=30, engine='E1 finite-domain')
+def r3_cipher_tables(ctx, po, pb, rule_id='C13.R3'):
+    r = ctx.rule(rule_id, 'the cipher selected for a (mode, key size) pair is the cipher of that mode and size', floor=30, engine='E1 finite-domain')
     sm, sw = enum_values(po, 'SymMode::Type'), enum_values(po, 'SymWrap::Type')
     jobs = [('OSSLAES::getCipher', 'aes', sm, (128, 192, 256), 'currentCipherMode', r'getBitLen(@\d+)?\(currentKey\)', {'currentKey': 1}),
             ('OSSLAES::getWrapCipher', 'aes', sw, (128, 192, 256), 'mode', r'getBitLen(@\d+)?\(key\)', {'key': 1}),
